@@ -170,7 +170,9 @@ var unicodeLetters = rangeTables()
 
 func genFontName() *rapid.Generator[string] {
 	return rapid.Custom(func(t *rapid.T) string {
-		switch weighted(t, "fontNameKind", 10, 10, 1) {
+		switch weighted(t, "fontNameKind", 10, 10, 1, 1) {
+		case 3:
+			return "" // an INDEX object of length 0
 		case 0:
 			return rapid.SampledFrom([]string{"Test", "Test-Bold", "ABCDEF+Test-Italic", "X", "Font_1.2"}).Draw(t, "name")
 		case 1:
@@ -318,8 +320,8 @@ func genSpec(extreme bool) *rapid.Generator[*fontSpec] {
 
 		nfd := 1
 		if s.CID {
-			s.Registry = rapid.SampledFrom([]string{"Adobe", "Adobe", "Test", "space", "R"}).Draw(t, "Registry")
-			s.Ordering = rapid.SampledFrom([]string{"Identity", "Japan1", "GB1", "Adobe", "Bold", "O"}).Draw(t, "Ordering")
+			s.Registry = rapid.SampledFrom([]string{"Adobe", "Adobe", "Test", "space", "R", ""}).Draw(t, "Registry")
+			s.Ordering = rapid.SampledFrom([]string{"Identity", "Japan1", "GB1", "Adobe", "Bold", "O", ""}).Draw(t, "Ordering")
 			s.Supplement = rapid.OneOf(rapid.Int32Range(0, 7), genInt32()).Draw(t, "Supplement")
 			s.CIDMode = weighted(t, "CIDMode", 1, 1, 1, 1, 1, 1)
 			s.CIDSeed = rapid.Uint64().Draw(t, "CIDSeed")
